@@ -12,6 +12,7 @@ THEOREMS = ["C17_combine", "C17_combine_sorted", "C17_filter", "C17_next_use", "
             "C17_buffet_fills_writebacks", "C17_bounds", "C17_line_granular", "C17_cache_machine",
             "C17_schedule_is_sort", "C17_sort_binds", "C17_cache_refines_min", "C17_policy_bounds",
             "C17_cache_bounds", "C17_monotone", "C17_monotone_cases", "C17_monotone_pins_refuted",
+            "C17_region2_needs_staging", "C17_region2_fails", "C17_region2_only_monotone",
             "C17_cache_tie_refuted",
             "C17_model_meets_spec", "C17_model_meets_spec_cache", "C17_model_meets_spec_no_cache"]
 COQ_IMPORTS = "From FT Require Import Model.Base Model.Obs Model.C17Traffic Model.C17Check."
@@ -134,14 +135,6 @@ def has_staging(case):
         if any(r[2] >= shape for r in (b["read"] or []) + b["write"]):
             return True
     return False
-
-
-def pins_gate(case):
-    """region 2 (cache runs at >= 2 capacities of a case with a staging access) is a known finding: fills can
-    increase with the capacity.  Until it is registered only one capacity is run for such cases."""
-    if len(case["caps"]) >= 2 and has_staging(case) and not (2 in registered_regions() or os.environ.get("C17_PINS")):
-        case["caps"] = case["caps"][:1]
-    return case
 
 
 def gen_case(rng, ties=None, nb=None):
@@ -299,16 +292,16 @@ def registered_regions():
 
 def streams(tier, rng):
     n = 600 if tier == "quick" else 6000
-    yield ("random", [pins_gate(gen_case(rng)) for _ in range(n)], False)
-    yield ("multi-binding-no-ties", [pins_gate(gen_case(rng, ties=False, nb=3)) for _ in range(n // 3)], False)
-    yield ("shared-rank", [pins_gate(gen_shared(rng)) for _ in range(n // 6)], False)
-    yield ("built-tensors", [pins_gate(gen_built(rng)) for _ in range(n // 4)], False)
+    yield ("random", [gen_case(rng) for _ in range(n)], False)
+    yield ("multi-binding-no-ties", [gen_case(rng, ties=False, nb=3) for _ in range(n // 3)], False)
+    yield ("shared-rank", [gen_shared(rng) for _ in range(n // 6)], False)
+    yield ("built-tensors", [gen_built(rng) for _ in range(n // 4)], False)
     if 1 in registered_regions() or os.environ.get("C17_TIES"):
         # same-step read/write to different lines with cache runs: known finding, region 1
-        yield ("cache-ties", [pins_gate(gen_case(rng, ties=True)) for _ in range(n // 6)], False)
+        yield ("cache-ties", [gen_case(rng, ties=True) for _ in range(n // 6)], False)
     if 2 in registered_regions() or os.environ.get("C17_PINS"):
-        # staging pins + two capacities: fills can increase with the capacity (known finding, region 2);
-        # the first case is the witness of C17_monotone_pins_refuted
+        # fills that increase with the capacity (known finding, region 2 = exactly the cases whose model
+        # totals are not monotone); the first case is the witness of C17_monotone_pins_refuted
         yield ("cache-pins", [copy.deepcopy(PIN_WITNESS)] + [gen_built(rng) for _ in range(n // 12)], False)
     if tier == "thorough":
         yield ("exhaustive-1rank", list(exhaustive_small()), True)
@@ -352,7 +345,8 @@ def describe(case):
             "evict_root": any(b["evict"] is None for b in case["bindings"]),
             "multi_elem_line": any(case["line"] // b["foot"] > 1 for b in case["bindings"]),
             "cache_runs": len(case["caps"]), "ties": has_ties(case), "filter": case["fin"] is not None,
-            "tensor_build": ",".join(str(t.get("build", 0)) for t in case["tensors"])}
+            "tensor_build": ",".join(str(t.get("build", 0)) for t in case["tensors"]),
+            "staging_and_two_caps": has_staging(case) and len(case["caps"]) >= 2}
 
 
 # ------------------------------------------------------------------ Coq literal
@@ -427,4 +421,4 @@ def shrinks(case):
 
 
 def search(disagreeing, rng, rnd):
-    return [pins_gate(gen_case(rng)) for _ in range(120)]
+    return [gen_case(rng) for _ in range(120)]
